@@ -224,6 +224,7 @@ def task(p, cse, k, tier, seed):
                 pa = l.assumes
                 po = py_outputs(l, scn)
                 mate = None
+                wit_envs = []
                 for c in unmatched:
                     if not l.pc and not c.pc:
                         mate = c
@@ -234,8 +235,15 @@ def task(p, cse, k, tier, seed):
                         mate = c
                         part.record(q, f"{key_base}/{scn}: accept/reject decision equivalent on path {c.decisions or '-'}")
                         break
+                    if q.status == "sat":
+                        # the solver's own witness of a differing decision is the first candidate to replay; a second one
+                        # on the dyadic grid (exact in doubles) if there is one
+                        from .oblig import env_from_model
+                        from .common import dyadic_box
+
+                        wit_envs.append(env_from_model(q.model, allv))
                 if mate is None:
-                    _concrete_compare(part, p, cf, cse, k, scn, key_base, info, seeded_envs(random.Random(seed + 1), 8), reason="no C++ path with an equivalent accept/reject condition")
+                    _concrete_compare(part, p, cf, cse, k, scn, key_base, info, wit_envs + seeded_envs(random.Random(seed + 1), 8), reason="no C++ path with an equivalent accept/reject condition")
                     continue
                 unmatched.remove(mate)
                 # inverse arguments (cut-points) agree
@@ -293,6 +301,31 @@ def _concrete_compare(part, p, cf, cse, k, scn, key_base, info, envs, reason):
             path = write_replay(PID, {"key": f"{key_base}/{scn}/{bad[0]}", "info": dict(info, scenario=scn, output=bad[0]), "inputs": e, "python": a, "cpp": b})
             part.violation(f"{key_base}/{scn}/{bad[0]}", f"python and C++ disagree on {bad[:4]} ({reason})", path)
             return
+    # boundary sweep: the solver's witness leaves the inverse cut symbols free, so it need not replay; walk the reading
+    # away from the prediction along a few directions - somewhere the two sides must change their decision, and if
+    # they do so at different distances the disagreement shows between the two
+    if scn.startswith("update:"):
+        key = scn.split(":", 1)[1]
+        rng = random.Random(7)
+        for e0 in envs[-3:]:
+            rs = p.s_readings(key)
+            d = [rng.choice([-1.0, 1.0]) * rng.randint(2, 8) / 8.0 for _ in rs]
+            for step in range(36):
+                t = 0.25 * (1.25 ** step)
+                e = dict(e0)
+                for r_, d_ in zip(rs, d):
+                    e[f"z_{key}_{r_}"] = X.evalf(p.sensors[key][r_], e0) + t * d_
+                try:
+                    a = py_float(p, cse, k, e, scn)
+                except pyh.GateRejected:
+                    continue
+                b, _, _ = cf.run_concrete(scn, _cpp_inputs(p, e))
+                part.d["witnesses"] += 1
+                bad = [nm for nm in a if nm in b and not approx_equal(a[nm], b[nm], rel=1e-6, abs_=1e-8)]
+                if bad:
+                    path = write_replay(PID, {"key": f"{key_base}/{scn}/{bad[0]}", "info": dict(info, scenario=scn, output=bad[0]), "inputs": e, "python": a, "cpp": b})
+                    part.violation(f"{key_base}/{scn}/{bad[0]}", f"python and C++ disagree on {bad[:4]} ({reason}; found by walking the reading away from the prediction)", path)
+                    return
     part.d["inconclusive"].append(f"{key_base}/{scn}: {reason}; no concrete disagreement found")
 
 
